@@ -1,3 +1,89 @@
 import CircuitModel.LockLang
+import CircuitModel.Conc.Cfg
 namespace CM.Lock
+
+/-- a non-empty list has an element maximising a Nat-valued function -/
+theorem exists_max {α : Type} (f : α → Nat) :
+    ∀ (l : List α), l ≠ [] → ∃ a ∈ l, ∀ b ∈ l, f b ≤ f a
+  | [], h => absurd rfl h
+  | [x], _ => ⟨x, by simp, by intro b hb; simp at hb; subst hb; exact Nat.le_refl _⟩
+  | x :: y :: rest, _ => by
+    obtain ⟨a, ha, hmax⟩ := exists_max f (y :: rest) (by simp)
+    by_cases hx : f x ≤ f a
+    · refine ⟨a, List.mem_cons_of_mem _ ha, ?_⟩
+      intro b hb
+      rcases List.mem_cons.1 hb with rfl | hb
+      · exact hx
+      · exact hmax b hb
+    · refine ⟨x, List.mem_cons_self, ?_⟩
+      intro b hb
+      rcases List.mem_cons.1 hb with rfl | hb
+      · exact Nat.le_refl _
+      · have := hmax b hb; omega
+
+/-- what the order checker establishes: the rank strictly increases along every edge -/
+theorem lockOrderOk_edge {edges : List (String × String)} (hok : lockOrderOk edges = true)
+    {a b : String} (h : (a, b) ∈ edges) :
+    rankOf edges (edges.length + 1) a < rankOf edges (edges.length + 1) b := by
+  unfold lockOrderOk at hok
+  simp only [List.all_eq_true, decide_eq_true_eq] at hok
+  exact hok (a, b) h
+
+/-- what `protects` gives at one access -/
+theorem protects_mem {L : String} {as : List Access} (hp : protects L as = true) {a : Access} (ha : a ∈ as) :
+    ∃ k ∈ a.held, k.lock = L ∧ (k.write = true ∨ a.write = false) := by
+  unfold protects at hp
+  rw [List.all_eq_true] at hp
+  have := hp a ha
+  rw [List.any_eq_true] at this
+  obtain ⟨k, hk, hk2⟩ := this
+  simp only [Bool.and_eq_true, beq_iff_eq, Bool.or_eq_true, Bool.not_eq_true'] at hk2
+  exact ⟨k, hk, hk2.1, hk2.2⟩
+
+open CM.Conc.Cfg in
+/-- invariant of the single-load race -/
+def Inv1 (old new : Int) (s : State) : Prop :=
+  (s.cur = old ∨ s.cur = new) ∧ s.new = new ∧ (s.loads = [] ∨ s.loads = [old] ∨ s.loads = [new])
+
+open CM.Conc.Cfg in
+theorem inv1_step {old new : Int} {s s' : State} {a : Actor} (h : Inv1 old new s)
+    (hs : step 1 s a = some s') : Inv1 old new s' := by
+  obtain ⟨hc, hn, hl⟩ := h
+  cases a with
+  | store =>
+    simp only [step] at hs
+    split at hs
+    · cases hs
+    · cases hs
+      exact ⟨Or.inr hn, hn, hl⟩
+  | load =>
+    simp only [step] at hs
+    split at hs
+    · cases hs
+      rename_i hlen
+      have hnil : s.loads = [] := by
+        rcases hl with h | h | h
+        · exact h
+        · rw [h] at hlen; simp at hlen
+        · rw [h] at hlen; simp at hlen
+      refine ⟨hc, hn, ?_⟩
+      simp only [hnil, List.nil_append]
+      rcases hc with h | h
+      · exact Or.inr (Or.inl (by rw [h]))
+      · exact Or.inr (Or.inr (by rw [h]))
+    · cases hs
+
+open CM.Conc.Cfg in
+theorem inv1_run {old new : Int} (sched : List Actor) : ∀ {s : State}, Inv1 old new s →
+    Inv1 old new (run 1 s sched) := by
+  induction sched with
+  | nil => intro s h; exact h
+  | cons a rest ih =>
+    intro s h
+    simp only [run]
+    split
+    · rename_i s' hs
+      exact ih (inv1_step h hs)
+    · exact ih h
+
 end CM.Lock
